@@ -996,3 +996,223 @@ NOT_COVERED = {
     "fivecells": "no rule specification written", "view": "no rule specification written", "castle_wall": "no rule specification written",
     "shakashaka": "no rule specification written",
 }
+
+
+# ---------------------------------------------------------------------------------------------------------------------------
+# solution-derived instances: sample a rule-obeying grid of the clue-free board with z3, then read the clues off it
+# (so that a good share of the instances is satisfiable, with clues consistent with at least one grid)
+# ---------------------------------------------------------------------------------------------------------------------------
+def _blank_ret(sp, d, s):
+    """a stand-in for the value returned by solve_<puzzle>: fresh arrays of the right shapes on a scratch Solver"""
+    from cspuz import BoolGridFrame as BGF
+    m = sp.module
+    if m == "sudoku":
+        return (None, s.int_array((4, 4), 1, 4))
+    if m == "slitherlink":
+        return (None, BGF(s, d["h"], d["w"]))
+    if m in ("masyu", "geradeweg"):
+        return (None, BGF(s, d["h"] - 1, d["w"] - 1))
+    if m == "yajilin":
+        return (None, BGF(s, d["h"] - 1, d["w"] - 1), s.bool_array((d["h"], d["w"])))
+    if m in ("building",):
+        return (None, s.int_array((d["n"], d["n"]), 1, d["n"]))
+    if m == "doppelblock":
+        return (None, s.int_array((d["n"], d["n"]), 0, d["n"] - 2))
+    if m == "fillomino":
+        return (None, s.int_array((d["h"], d["w"]), 1, d["h"] * d["w"]))
+    if m == "compass":
+        return (None, s.int_array((d["h"], d["w"]), 0, len(d["problem"]) - 1))
+    if m == "star_battle":
+        return (None, s.bool_array((d["n"], d["n"])))
+    return (None, s.bool_array((d["h"], d["w"])))
+
+
+def sample_solution(sp, d, rng, tries=6):
+    """returns the values of sp.answers(blank) for one grid obeying rule(d) or None"""
+    from cspuz import Solver as _S
+    from cspuz.expr import BoolVar as _BV
+    from ..ea import ref as _ref
+    s = _S()
+    ret = _blank_ret(sp, d, s)
+    env = _ref.Env()
+    xv = sp.answers(ret)
+    R = z3.And(env.domain(xv), sp.rule(d, ret, env))
+    for _ in range(tries):
+        q = z3.Solver()
+        q.set("timeout", 20000)
+        q.set("random_seed", rng.randrange(1 << 30))
+        q.add(R)
+        for v in rng.sample(xv, min(len(xv), rng.randint(1, 3))):      # random nudges
+            zv = env.z(v)
+            q.add(zv == (z3.BoolVal(rng.random() < 0.5) if isinstance(v, _BV) else z3.IntVal(rng.randint(v.lo, v.hi))))
+        if q.check() == z3.sat:
+            m = q.model()
+            vals = []
+            for v in xv:
+                mv = m.eval(env.z(v), model_completion=True)
+                vals.append(bool(z3.is_true(mv)) if isinstance(v, _BV) else mv.as_long())
+            return ret, xv, vals
+    return None
+
+
+def derive_instances(sp, rng, tier):
+    """clue layouts read off sampled solutions, with a random subset of the clues kept"""
+    out = []
+    m = sp.module
+    n_per = 4 if tier == "quick" else 16
+    keep = lambda: rng.random() < rng.choice([0.3, 0.6, 1.0])   # noqa: E731
+
+    def grid_of(vals, h, w, off=0):
+        return [[vals[off + y * w + x] for x in range(w)] for y in range(h)]
+    if m in ("slitherlink", "akari", "creek", "gokigen", "nurikabe", "fillomino", "yinyang", "heyawake", "aquarium"):
+        for (h, w) in shapes(4 if m in ("slitherlink", "gokigen", "fillomino") else 6):
+            if m == "yinyang" and min(h, w) < 2:
+                continue
+            for k in range(n_per):
+                if m == "slitherlink":
+                    d0 = {"h": h, "w": w, "problem": [[-1] * w for _ in range(h)]}
+                elif m == "akari":
+                    lay = rand_layout(rng, h, w, [-1], rng.choice([0.0, 0.2, 0.4]))
+                    d0 = {"h": h, "w": w, "problem": [[-2 if v is None else -1 for v in row] for row in lay]}
+                elif m in ("creek", "gokigen"):
+                    d0 = {"h": h, "w": w, "problem": [[-1] * (w + 1) for _ in range(h + 1)]}
+                elif m == "nurikabe":
+                    d0 = None
+                elif m == "fillomino":
+                    d0 = {"h": h, "w": w, "problem": [[0] * w for _ in range(h)]}
+                elif m == "yinyang":
+                    d0 = {"h": h, "w": w, "problem": [[0] * w for _ in range(h)]}
+                elif m == "heyawake":
+                    rooms = random_rooms(rng, h, w, rng.randint(1, 4))
+                    d0 = {"h": h, "w": w, "rooms": rooms, "clues": [-1] * len(rooms)}
+                elif m == "aquarium":
+                    base = [d for d in Aquarium().instances("quick", rng) if (d["h"], d["w"]) == (h, w)]
+                    if not base:
+                        continue
+                    d0 = dict(rng.choice(base))
+                    d0["row"], d0["col"] = [-1] * h, [-1] * w
+                if m == "nurikabe":
+                    # any colouring with a connected non-empty wall, no 2x2 wall: islands get their size as clue
+                    d0 = {"h": h, "w": w, "problem": [[0] * w for _ in range(h)]}
+                    from cspuz import Solver as _S
+                    from ..ea import ref as _ref
+                    s = _S()
+                    arr = s.bool_array((h, w))
+                    env = _ref.Env()
+                    g = Grid(arr, env, h, w)
+                    black = [z3.Not(t) for t in g.flat()]
+                    R = z3.And(spec.connected(h * w, grid_edges(h, w), black), Or(black),
+                               And(Or([g(y, x), g(y + 1, x), g(y, x + 1), g(y + 1, x + 1)]) for y in range(h - 1) for x in range(w - 1)))
+                    q = z3.Solver()
+                    q.set("random_seed", rng.randrange(1 << 30))
+                    q.add(R)
+                    for t in rng.sample(g.flat(), min(h * w, 2)):
+                        q.add(t == z3.BoolVal(rng.random() < 0.6))
+                    if q.check() != z3.sat:
+                        continue
+                    mdl = q.model()
+                    white = [[bool(z3.is_true(mdl.eval(g(y, x), model_completion=True))) for x in range(w)] for y in range(h)]
+                    comp = spec.closure_py(h * w, grid_edges(h, w), [white[y][x] for y in range(h) for x in range(w)], [True] * len(grid_edges(h, w)))
+                    p = [[0] * w for _ in range(h)]
+                    seen = set()
+                    for u in range(h * w):
+                        if white[u // w][u % w] and u not in seen:
+                            members = [v for v in range(h * w) if comp[u][v]]
+                            seen |= set(members)
+                            c = rng.choice(members)
+                            p[c // w][c % w] = len(members) if rng.random() < 0.8 else -1
+                    out.append({"tag": "%dx%d/sol%d" % (h, w, k), "h": h, "w": w, "problem": p})
+                    continue
+                smp = sample_solution(sp, d0, rng)
+                if smp is None:
+                    continue
+                ret, xv, vals = smp
+                d = dict(d0)
+                d["tag"] = "%dx%d/sol%d" % (h, w, k)
+                if m == "slitherlink":
+                    f = ret[1]
+                    val = {id(v): b for v, b in zip(xv, vals)}
+                    d["problem"] = [[(sum(val[id(e)] for e in (f.horizontal[y, x], f.horizontal[y + 1, x], f.vertical[y, x], f.vertical[y, x + 1]))
+                                      if keep() else -1) for x in range(w)] for y in range(h)]
+                elif m == "akari":
+                    lt = grid_of(vals, h, w)
+                    p = [row[:] for row in d0["problem"]]
+                    for y in range(h):
+                        for x in range(w):
+                            if p[y][x] == -1 and keep():
+                                p[y][x] = sum(1 for (yy, xx) in ((y - 1, x), (y + 1, x), (y, x - 1), (y, x + 1))
+                                              if 0 <= yy < h and 0 <= xx < w and lt[yy][xx])
+                    d["problem"] = p
+                elif m == "creek":
+                    wh = grid_of(vals, h, w)
+                    d["problem"] = [[(sum(1 for yy in (y - 1, y) for xx in (x - 1, x) if 0 <= yy < h and 0 <= xx < w and not wh[yy][xx])
+                                      if keep() else -1) for x in range(w + 1)] for y in range(h + 1)]
+                elif m == "gokigen":
+                    t = grid_of(vals, h, w)
+
+                    def touch(y, x):
+                        c = 0
+                        if y > 0 and x > 0 and t[y - 1][x - 1]:
+                            c += 1
+                        if y > 0 and x < w and not t[y - 1][x]:
+                            c += 1
+                        if y < h and x > 0 and not t[y][x - 1]:
+                            c += 1
+                        if y < h and x < w and t[y][x]:
+                            c += 1
+                        return c
+                    d["problem"] = [[touch(y, x) if keep() else -1 for x in range(w + 1)] for y in range(h + 1)]
+                elif m == "fillomino":
+                    g = grid_of(vals, h, w)
+                    d["problem"] = [[g[y][x] if keep() else 0 for x in range(w)] for y in range(h)]
+                elif m == "yinyang":
+                    g = grid_of(vals, h, w)
+                    d["problem"] = [[(2 if g[y][x] else 1) if rng.random() < 0.3 else 0 for x in range(w)] for y in range(h)]
+                elif m == "heyawake":
+                    g = grid_of(vals, h, w)
+                    d["clues"] = [sum(1 for (y, x) in r if g[y][x]) if keep() else -1 for r in d0["rooms"]]
+                elif m == "aquarium":
+                    g = grid_of(vals, h, w)
+                    d["row"] = [sum(g[y]) if keep() else -1 for y in range(h)]
+                    d["col"] = [sum(g[y][x] for y in range(h)) if keep() else -1 for x in range(w)]
+                out.append(d)
+    elif m in ("building", "doppelblock"):
+        for n in ((3,) if tier == "quick" else (3, 4)):
+            for k in range(n_per * 2):
+                if m == "building":
+                    d0 = {"n": n, "up": [0] * n, "dw": [0] * n, "lf": [0] * n, "rg": [0] * n}
+                else:
+                    d0 = {"n": n, "row": [-1] * n, "col": [-1] * n}
+                smp = sample_solution(sp, d0, rng)
+                if smp is None:
+                    continue
+                g = grid_of(smp[2], n, n)
+                d = dict(d0)
+                d["tag"] = "n%d/sol%d" % (n, k)
+                if m == "building":
+                    def vis(line):
+                        c, mx = 0, 0
+                        for v in line:
+                            if v > mx:
+                                c, mx = c + 1, v
+                        return c
+                    d["up"] = [vis([g[y][i] for y in range(n)]) if keep() else 0 for i in range(n)]
+                    d["dw"] = [vis([g[y][i] for y in range(n)][::-1]) if keep() else 0 for i in range(n)]
+                    d["lf"] = [vis(g[i]) if keep() else 0 for i in range(n)]
+                    d["rg"] = [vis(g[i][::-1]) if keep() else 0 for i in range(n)]
+                else:
+                    def between(line):
+                        idx = [i for i, v in enumerate(line) if v == 0]
+                        return sum(line[idx[0] + 1:idx[1]])
+                    d["row"] = [between(g[i]) if keep() else -1 for i in range(n)]
+                    d["col"] = [between([g[y][i] for y in range(n)]) if keep() else -1 for i in range(n)]
+                out.append(d)
+    elif m == "sudoku":
+        d0 = {"problem": [[0] * 4 for _ in range(4)]}
+        for k in range(n_per * 2):
+            smp = sample_solution(sp, d0, rng)
+            if smp is None:
+                continue
+            g = grid_of(smp[2], 4, 4)
+            out.append({"tag": "n2/sol%d" % k, "problem": [[g[y][x] if rng.random() < 0.4 else 0 for x in range(4)] for y in range(4)]})
+    return out
